@@ -88,6 +88,28 @@ theorem restore_layers (n colors : Nat) (ops : List VOp) :
     restoreV v = { v with col := { v.col with done := [], undone := [] }, err := false } :=
   Lemmas.C18Viewer.restoreV_eq _ (viewer_reachable_inv n colors ops)
 
+/-- **… also for a viewer class that refuses some requests** by raising before it touches anything
+(`stepR`; the image viewer refuses a 1-d dataset or subset while it has no layer — `imageRefuses` —,
+but the statement holds for *any* refusal rule): after every history, refused requests included, the
+property predicate holds and save + restore is the identity on both layer lists. -/
+theorem viewer_refusing_spec (refuses : VState → VOp → Bool) (n colors : Nat) (ops : List VOp) :
+    let v := runR refuses (C18Viewer.init n colors) ops
+    VInv v ∧ specOkV v = true ∧
+    restoreV v = { v with col := { v.col with done := [], undone := [] }, err := false } := by
+  have h : ∀ (ops : List VOp) (v : VState), VInv v → VInv (runR refuses v ops) := by
+    intro ops
+    induction ops with
+    | nil => intro v hv; exact hv
+    | cons op ops ih =>
+      intro v hv
+      refine ih _ ?_
+      unfold stepR
+      split
+      · exact Lemmas.C18Viewer.vinv_err hv true
+      · exact Lemmas.C18Viewer.inv_step v op hv
+  have hv := h ops _ (Lemmas.C18Viewer.inv_init n colors)
+  exact ⟨hv, Lemmas.C18Viewer.specOk_of_inv _ hv, Lemmas.C18Viewer.restoreV_eq _ hv⟩
+
 /-! ### the invariant is not vacuous -/
 
 /-- a group removed while the viewer shows the dataset, a dataset removed and appended again, a
@@ -271,32 +293,43 @@ example :
 /-! ## Part 3 — the axes of an image viewer -/
 
 open GlueVerif.C18Combo.Axes in
-/-- **`x_att ≠ y_att`, always**: after any sequence of the four setters, reference-data changes and
-layers coming and going (all datasets of dimension ≥ 2), either there is no reference data and
-nothing is selected, or `x_att` and `y_att` are two different pixel axes of the reference data and
-`x_att_world`, `y_att_world` are their world twins. -/
-theorem image_axes_distinct (ndim : Nat → Nat) (hn : ∀ d, 2 ≤ ndim d) (ops : List AOp) :
+/-- **`x_att ≠ y_att`, always, and the reference data always has two or more dimensions**: after any
+sequence of the four setters, reference-data changes and layers coming and going — datasets of
+**any** dimension, 1-d tables shown as scatter overlays included —: no handler crashes; either there is
+no reference data, then nothing is selected and no layer has a dataset of two or more dimensions;
+or the reference data is one of the layers' datasets, has at least two dimensions, `x_att` and `y_att`
+are two different pixel axes of it and `x_att_world`, `y_att_world` are their world twins. -/
+theorem image_axes_distinct (ndim : Nat → Nat) (ops : List AOp) :
     let s := arun ndim ainit ops
     s.crashed = false ∧
     match s.ref with
-    | none => s.x = none ∧ s.y = none ∧ s.xw = none ∧ s.yw = none ∧ s.layers = []
-    | some r => r ∈ s.layers ∧ ∃ i j, s.x = some i ∧ s.y = some j ∧ s.xw = some i ∧ s.yw = some j ∧
+    | none => s.x = none ∧ s.y = none ∧ s.xw = none ∧ s.yw = none ∧ ∀ d ∈ s.layers, ndim d < 2
+    | some r => r ∈ s.layers ∧ 2 ≤ ndim r ∧ ∃ i j, s.x = some i ∧ s.y = some j ∧ s.xw = some i ∧ s.yw = some j ∧
         i ≠ j ∧ i < ndim r ∧ j < ndim r :=
-  Lemmas.C18Combo.Axes.arun_ok ndim hn ops _ (Lemmas.C18Combo.Axes.ainit_ok ndim)
+  Lemmas.C18Combo.Axes.arun_ok ndim ops _ (Lemmas.C18Combo.Axes.ainit_ok ndim)
 
 open GlueVerif.C18Combo.Axes in
 /-- the executable form the driver evaluates (`implok`). -/
-theorem image_axes_spec (ndim : Nat → Nat) (hn : ∀ d, 2 ≤ ndim d) (ops : List AOp) :
+theorem image_axes_spec (ndim : Nat → Nat) (ops : List AOp) :
     axesOk ndim (arun ndim ainit ops) = true :=
   Lemmas.C18Combo.Axes.axesOk_of_AOk ndim _
-    (Lemmas.C18Combo.Axes.arun_ok ndim hn ops _ (Lemmas.C18Combo.Axes.ainit_ok ndim))
+    (Lemmas.C18Combo.Axes.arun_ok ndim ops _ (Lemmas.C18Combo.Axes.ainit_ok ndim))
 
 open GlueVerif.C18Combo.Axes in
-/-- known finding C18b: a 1-d dataset can become the reference data (here by being picked in the
-reference-data combo; also when the image it was overlaid on is removed) and the handlers crash. -/
+/-- finding C18b (fixed by `fix: image reference needs 2d`).  On the pinned tree (`Orig.arun`: every
+layer dataset is offered as reference data) a 1-d dataset became the reference data — by being picked
+in the reference-data combo, or as the first remaining layer when the image it was overlaid on is
+removed — and the handlers crashed.  The repaired code refuses the pick (`ValueError`, nothing
+changes) and is left without reference data when only the table remains. -/
 theorem image_1d_reference_crashes :
-    (arun (fun d => if d = 1 then 1 else 3) ainit [.addLayer 0, .addLayer 1, .setRef 1]).crashed = true ∧
-    (arun (fun d => if d = 1 then 1 else 2) ainit [.addLayer 0, .addLayer 1, .removeLayer 0]).crashed = true := by
+    let nd3 := fun d => if d = 1 then 1 else 3
+    let nd2 := fun d => if d = 1 then 1 else 2
+    (Orig.arun nd3 ainit [.addLayer 0, .addLayer 1, .setRef 1]).crashed = true ∧
+    (Orig.arun nd2 ainit [.addLayer 0, .addLayer 1, .removeLayer 0]).crashed = true ∧
+    (let s := arun nd3 ainit [.addLayer 0, .addLayer 1, .setRef 1]; s.err = true ∧ s.ref = some 0 ∧ s.crashed = false) ∧
+    (let s := arun nd2 ainit [.addLayer 0, .addLayer 1, .removeLayer 0]
+     s.ref = none ∧ s.x = none ∧ s.y = none ∧ s.layers = [1] ∧ s.crashed = false) ∧
+    (arun nd2 ainit [.addLayer 1, .addLayer 0]).ref = some 0 := by
   decide
 
 open GlueVerif.C18Combo.Axes in
